@@ -30,6 +30,51 @@ theorem nextIp_1g (m : String) (addr len : Nat) (r : GReg) (h : addr + len < 2 ^
     nextIp (ins1g m addr len r) = addr + len := by
   simp [nextIp, ins1g, Mode.bits, Nat.mod_eq_of_lt h]
 
+/-! ### push r64 -/
+
+theorem step_push64 (addr len i : Nat) (st : St) (h : addr + len < 2 ^ 64) (bs : List UInt8)
+    (hmap : st.mem.readBytes (st.gpr 4 - 8#64).toNat 8 = some bs) :
+    step (ins1g "push" addr len ⟨i, 64, 0⟩) st =
+      .ok (setReg { st with mem := st.mem.write (st.gpr 4 - 8#64).toNat (bytesOfLE (st.gpr i).toNat 8) } (rsp 64) (st.gpr 4 - 8#64))
+        (addr + len) [] := by
+  have hc : splitCc "push" = none := by decide
+  have hn := nextIp_1g "push" addr len ⟨i, 64, 0⟩ h
+  have hw : BitVec.setWidth 64 (BitVec.setWidth 64 (st.gpr 4 >>> 0)) = st.gpr 4 := by simp
+  have hsp : ((st.gpr 4).toNat + 2 ^ 64 - 64 / 8) % 2 ^ 64 = (st.gpr 4 - 8#64).toNat := by
+    rw [BitVec.toNat_sub]; have := (st.gpr 4).isLt; simp; omega
+  have hv : (BitVec.setWidth (8 * (64 / 8)) (BitVec.setWidth 64 (st.gpr i >>> 0))).toNat % 2 ^ (8 * (64 / 8)) = (st.gpr i).toNat := by
+    have : BitVec.setWidth (8 * (64 / 8)) (BitVec.setWidth 64 (st.gpr i >>> 0)) = st.gpr i := by simp
+    rw [this]; exact Nat.mod_eq_of_lt (st.gpr i).isLt
+  unfold step ins1g
+  simp only [hc]
+  simp only [ins1g] at hn
+  simp only [readOp, push, writeMem, orTrap, done, Opnd.bits, Mode.bits, hn, getReg, rsp, hw, hsp]
+  simp only [Option.map_some, Option.bind_eq_bind, Option.bind_some, hv, show 64 / 8 = 8 from rfl, hmap]
+  simp only [BitVec.ofNat_toNat, BitVec.setWidth_eq]
+  simp [-BitVec.toNat_sub]
+
+/-- **`push r64`** (any register, `push rsp` included: the OLD stack pointer is stored) -/
+theorem lift_push64 (i : Nat) (hi : i < 16) (addr len : Nat) (haddr : addr + len < 2 ^ 64) (σ : State) (st : St) (ha : Abs σ st)
+    (bs : List UInt8) (hmap : st.mem.readBytes (st.gpr 4 - 8#64).toNat 8 = some bs)
+    (hwrap : (st.gpr 4 - 8#64).toNat + 8 ≤ 2 ^ 64) :
+    ∃ ops, opsPush64 ⟨i, 64, 0⟩ = .ok ops ∧ AgreesM (straight addr len ops) σ (ins1g "push" addr len ⟨i, 64, 0⟩) st := by
+  have hnsp := Ev.sub (ev_sp ha) (ev_eight (σ := σ))
+  have hval := ev_getE ha (Shape.r64 i) hi
+  have e1 := exec_store 8 (by decide) rfl hnsp hval hwrap
+  have hb : bytesOf σ.endian (ofBV (getReg st ⟨i, 64, 0⟩ 64)) = bytesOfLE (st.gpr i).toNat 8 := by
+    rw [ha.endian, bytesOf_little]; simp [getReg]
+  rw [hb, ha.mem] at e1
+  have ha1 : Abs { σ with mem := st.mem.write (st.gpr 4 - 8#64).toNat (bytesOfLE (st.gpr i).toNat 8) }
+      { st with mem := st.mem.write (st.gpr 4 - 8#64).toNat (bytesOfLE (st.gpr i).toNat 8) } := abs_store ha _
+  have hnsp1 := Ev.sub (ev_sp ha1) (ev_eight (σ := _))
+  have e2 := exec_assign (X86Lift.scalar "rsp" 64) hnsp1
+  refine ⟨[.store (.bin .sub spE (Expr.ec 8 64)) (getE ⟨i, 64, 0⟩), .assign (X86Lift.scalar "rsp" 64) (.bin .sub spE (Expr.ec 8 64))],
+    by simp [opsPush64, regGet_eq (Shape.r64 i), Expr.mkBin, spE, sc, Expr.bits, bind, Res.bind, pure], _, _, ?_,
+    step_push64 addr len i st haddr bs hmap, abs_set_rsp ha1 _⟩
+  rw [runBTR_straight _ _ _ _ (by simp)]
+  simp only [execOps, e1, e2, ins1g]
+  rfl
+
 /-! ### pop r64 -/
 
 theorem step_pop64 (addr len i : Nat) (st : St) (h : addr + len < 2 ^ 64) (bs : List UInt8)
